@@ -56,8 +56,15 @@ def attr_text(f):
     return ('#[bpaf(%s)]\n        ' % ', '.join(parts)) if parts else ''
 
 def doc_text(doc, indent='        '):
+    """only ONE ordinary blank after `///` belongs to the comment syntax: a line that starts with a tab or a no-break space is written
+    without it and keeps that character in the documented text"""
     if not doc: return ''
-    return ''.join('%s/// %s\n' % (indent, l) if l else '%s///\n' % indent for l in doc.split('\n'))
+    out = ''
+    for l in doc.split('\n'):
+        if not l: out += '%s///\n' % indent
+        elif l[0] in '\t\u00a0\u3000': out += '%s///%s\n' % (indent, l)
+        else: out += '%s/// %s\n' % (indent, l)
+    return out
 
 def lit(s):
     return '"%s"' % s.replace('\\', '\\\\').replace('"', '\\"').replace('\n', '\\n')
@@ -237,11 +244,11 @@ class Member:
                 body = '::bpaf::long(%s).req_flag(%s)' % (lit(kn), self.name)
             if not is_opts and not cmd and self.doc:
                 body += '.group_help(%s)' % lit(self.doc)
-            if 'adjacent' in self.top: body += '.adjacent()'
-            if not is_opts and not cmd:
-                for t in self.top:
-                    if re.match(r'^(fallback\(.*\)|debug_fallback|display_fallback|hide|hide_usage)$', t):
-                        body += '.' + (t if '(' in t else t + '()')
+            if 'adjacent' in self.top and not cmd: body += '.adjacent()'
+            # post-processing annotations decorate the PARSER of the fields: they come before to_options() / command(), whatever the mode
+            for t in self.top:
+                if re.match(r'^(fallback\(.*\)|debug_fallback|display_fallback|hide|hide_usage)$', t):
+                    body += '.' + (t if '(' in t else t + '()')
             body += self.top_suffix(self.doc, self.top, variant_kebab(self.name))
         else:
             alts = []
@@ -336,6 +343,9 @@ def base_family():
     M.append(Member('b_docs_indent', 'struct', 'DocsIndent', top=['options'], doc='Description\n\n\n    frob [-v] FILE...\nmore header\n\n\n  - first footer item\n  - second footer item', fields=[F('a', 'bool')]))
     M.append(Member('b_docs_indent_cmd', 'enum', 'IndentCmd', variants=[
         dict(name='Run', shape='named', attrs=['command'], doc='run it\n\n\n    run [--fast]\n\n\n  * footer bullet', fields=[F('fast', 'bool')])]))
+    M.append(Member('b_cmd_fallback', 'struct', 'Tune', top=['command', 'fallback(Tune { level: 3 })'], doc='tune it', fields=[F('level', 'u32')]))
+    M.append(Member('b_opts_fallback', 'struct', 'OptsF', top=['options', 'fallback(OptsF { n: 1 })'], fields=[F('n', 'u32')]))
+    M.append(Member('b_docs_tab', 'struct', 'DocsTab', top=['options'], doc='Formats:\n\tjson,\n\u00a0\u00a0yaml', fields=[F('fmt', 'String', doc='\tpick one')]))
     # implicit names follow the word rule, whatever the style of the identifier
     M.append(Member('b_cmd_multiword', 'struct', 'CheckConnection', top=['command'], doc='check it', fields=[F('retry_count', 'u32')]))
     M.append(Member('b_case_rule', 'struct', 'CaseRule', top=['options'], fields=[F('max_KiB', 'u32'), F('HTTPProxy', 'Option<String>'), F('x_Y', 'bool', naming=[('long', None), ('short', None)])]))
